@@ -23,6 +23,9 @@ def families(tier, seed):
             if feats.get("edges") and solver != "scipy":
                 continue
             out.append(dict(tag=f"{tag}/run/{solver}", features=dict(feats, solver=solver), kind="dde_run", model=model, solver=solver, T=2.0))
+        if tag.split("-")[0] in ("H1", "H3", "H6"):
+            out.append(dict(tag=f"{tag}/run-method-RK45/scipy", features=dict(feats, solver="scipy", method="RK45"), kind="dde_run", model=model,
+                            solver="scipy", T=2.0, method="RK45"))
         # coarse sampling (sampling step larger than the delays): the history must still contain every accepted step
         out.append(dict(tag=f"{tag}/run-coarse/scipy", features=dict(feats, solver="scipy", coarse=True), kind="dde_run", model=model,
                         solver="scipy", T=2.0, dts=1.0))
